@@ -19,7 +19,10 @@ def run(ctx):
         sim = sim[:80]
     items = [list(c) for c in chains] + [list(c) for c in sim]
     items += [c for c in sem.pinned_chains(ctx.prop) if list(c) not in items]
+    # placement of the backtrace point: direct call in main (argument 0), second argument, inside a helper
+    kinds = ["bt", "bt_arg1", "bt_helper"]
+    items = [(c, kinds[0]) for c in items] + [(c, kinds[1 + (i % 2)]) for i, c in enumerate(items) if len(c) <= 2]
     sem.taint_flow_check(ctx, items,
-                         lambda ch, name: semgen.build_chain(ch, name=name, sink_kind="bt", source_kind="origin"),
+                         lambda it, name: semgen.build_chain(it[0], name=name, sink_kind=it[1], source_kind="origin"),
                          nexh, len(sim), mode="bt",
                          prop_what="backtrace reports no trace containing the origin for the backward flow")
